@@ -22,7 +22,11 @@ theorem tickRun_deterministic (w : Wiring) (hw : RouterOK w) (hacyc : w.Acyclic)
     (hwa : (akeys a.wake).Nodup) (hwb : (akeys b.wake).Nodup)
     (hab : a.Equiv b) (ha : TickRun w dev a t roots a') (hb : TickRun w dev b t roots' b') :
     a'.Equiv b' := by
-  sorry
+  have _ := hwa -- not needed: the wakeups are compared as mappings
+  have _ := hwb
+  have h := Det.tickRun_loc_equiv hw hacyc hdev hroots
+    (fun c => ⟨(hab.comps c).1, (hab.comps c).2, hab.wake c, hab.obs c⟩) ha hb
+  exact ⟨fun c => ⟨(h c).ins, (h c).outs⟩, fun c => (h c).wk, fun c => (h c).ob⟩
 
 /-- **C08.** Two runs of the same flat simulation (same wiring, same deterministic devices,
 same initial time, same number of ticks) have the same tick times and every device has the
@@ -32,6 +36,7 @@ theorem schedule_independent (w : Wiring) (hw : RouterOK w) (hacyc : w.Acyclic) 
     (st1 st2 : FlatSt Val) (times1 times2 : List SimTime)
     (h1 : FlatRun w devs t0 n st1 times1) (h2 : FlatRun w devs t0 n st2 times2) :
     times1 = times2 ∧ ∀ c, ObsEq (st1.obsOf c) (st2.obsOf c) := by
-  sorry
+  obtain ⟨ht, h⟩ := Det.flatRun_loc_equiv hw hacyc hdev h1 h2
+  exact ⟨ht, fun c => (h c).ob⟩
 
 end Tickit
